@@ -2958,3 +2958,299 @@ Section NestedLca.
       apply Hsr in C1; try lia. apply Hsr in C2; try lia. all: try exact (Hno d C1 C2).
   Qed.
 End NestedLca.
+
+(* ================= 14. near-tree encoding ================= *)
+(* the spanning forest: every node keeps its FIRST parent *)
+Definition fpar (p : poset) (c : nat) : list nat := firstn 1 (parents p c).
+Definition fch (p : poset) (v : nat) : list nat := nth v (forest_children p) [].
+
+Lemma fc_fold : forall (g : nat -> list nat) l acc,
+  (forall c f r, In c l -> g c = f :: r -> f < length acc) ->
+  length (fold_left (fun a c => match g c with [] => a | f :: _ => push_at a f c end) l acc) = length acc /\
+  forall i, nth i (fold_left (fun a c => match g c with [] => a | f :: _ => push_at a f c end) l acc) []
+            = nth i acc [] ++ filter (fun c => match g c with f :: _ => f =? i | [] => false end) l.
+Proof.
+  intros g. induction l as [|c l IH]; intros acc Hk; cbn [fold_left filter].
+  - split; auto. intros i. rewrite app_nil_r. reflexivity.
+  - destruct (g c) as [|f r] eqn:E.
+    + apply IH. intros c' f' r' Hc' E'. apply (Hk c' f' r'); cbn; auto.
+    + assert (Hf : f < length acc) by (apply (Hk c f r); cbn; auto).
+      assert (Hpl : length (push_at acc f c) = length acc) by (unfold push_at; apply upd_length).
+      destruct (IH (push_at acc f c)) as [I1 I2].
+      { intros c' f' r' Hc' E'. rewrite Hpl. apply (Hk c' f' r'); cbn; auto. }
+      rewrite Hpl in I1. split; auto.
+      intros i. rewrite I2. unfold push_at.
+      destruct (Nat.eqb_spec f i) as [->|Hne].
+      * rewrite nth_upd by auto. rewrite Nat.eqb_refl. rewrite <- app_assoc. reflexivity.
+      * rewrite nth_upd_other by auto. reflexivity.
+Qed.
+
+Section NearForest.
+  Variables (p : poset) (rk : nat -> nat).
+  Hypothesis W : wf_poset p rk.
+  Let n := pn p.
+
+  Lemma parents_lt : forall c, parents p c <> [] -> c < n.
+  Proof.
+    intros c H. destruct (parents p c) as [|q l] eqn:E; [congruence|].
+    assert (In q (parents p c)) by (rewrite E; cbn; auto). apply (wf_lt p rk W) in H0. tauto.
+  Qed.
+
+  Lemma fch_spec : forall v c, In c (fch p v) <-> In v (fpar p c).
+  Proof.
+    intros v c. unfold fch, forest_children, fpar.
+    destruct (fc_fold (parents p) (nodes p) (repeat [] (pn p))) as [_ F2].
+    - intros c0 f r _ E. rewrite repeat_length.
+      assert (In f (parents p c0)) by (rewrite E; cbn; auto). apply (wf_lt p rk W) in H. tauto.
+    - rewrite F2. replace (nth v (repeat [] (pn p)) []) with (@nil nat).
+      2:{ destruct (Nat.ltb_spec v (pn p)); [rewrite nth_repeat|rewrite nth_overflow by (rewrite repeat_length; lia)]; reflexivity. }
+      cbn [app]. rewrite filter_In. unfold nodes. rewrite in_seq.
+      destruct (parents p c) as [|q l] eqn:Ep; cbn [firstn].
+      + split; [intros [_ H]; discriminate|intros []].
+      + split.
+        * intros [_ H]. apply Nat.eqb_eq in H. subst. cbn; auto.
+        * intros [<-|[]]. split; [|apply Nat.eqb_refl].
+          assert (c < n) by (apply parents_lt; rewrite Ep; discriminate). fold n. lia.
+  Qed.
+
+  Lemma fch_eq : forall v, fch p v = filter (fun c => match parents p c with f :: _ => f =? v | [] => false end) (nodes p).
+  Proof.
+    intros v. unfold fch, forest_children.
+    destruct (fc_fold (parents p) (nodes p) (repeat [] (pn p))) as [_ F2].
+    - intros c0 f r _ E. rewrite repeat_length.
+      assert (In f (parents p c0)) by (rewrite E; cbn; auto). apply (wf_lt p rk W) in H. tauto.
+    - rewrite F2. replace (nth v (repeat [] (pn p)) []) with (@nil nat); [reflexivity|].
+      destruct (Nat.ltb_spec v (pn p)); [rewrite nth_repeat|rewrite nth_overflow by (rewrite repeat_length; lia)]; reflexivity.
+  Qed.
+
+  Lemma fpar_sub : forall c q, In q (fpar p c) -> In q (parents p c).
+  Proof. intros c q. unfold fpar. destruct (parents p c); cbn; tauto. Qed.
+
+  Lemma f_ranked : ranked (fpar p) n rk.
+  Proof. intros c q H. apply (wf_rk p rk W). apply fpar_sub; auto. Qed.
+  Lemma f_one : forall c, length (fpar p c) <= 1.
+  Proof. intros c. unfold fpar. destruct (parents p c); cbn; lia. Qed.
+  Lemma f_nd : forall v, NoDup (fch p v).
+  Proof. intros v. rewrite fch_eq. apply NoDup_filter. unfold nodes. apply seq_NoDup. Qed.
+  Lemma f_roots : forall r, In r (roots p) <-> (r < n /\ fpar p r = []).
+  Proof.
+    intros r. rewrite roots_spec. unfold fpar. fold n. destruct (parents p r); cbn; split; intros [H1 H2]; split; auto; discriminate.
+  Qed.
+  Lemma f_lt : forall c v, In v (fpar p c) -> c < n /\ v < n.
+  Proof. intros c v H. apply (wf_lt p rk W). apply fpar_sub; auto. Qed.
+End NearForest.
+
+Lemma filter_lt : forall A (g h : A -> bool) l e, (forall a, g a = true -> h a = true) ->
+  In e l -> h e = true -> g e = false -> length (filter g l) < length (filter h l).
+Proof.
+  intros A g h. induction l as [|a l IH]; intros e Hgh Hin He1 He2; [destruct Hin|].
+  assert (Hle : forall l', length (filter g l') <= length (filter h l')).
+  { induction l' as [|b l' IHl]; cbn; auto. destruct (g b) eqn:Eg; [rewrite (Hgh b Eg); cbn; lia|].
+    destruct (h b); cbn; lia. }
+  cbn [filter]. destruct Hin as [->|Hin].
+  - rewrite He1, He2. cbn. specialize (Hle l). lia.
+  - specialize (IH e Hgh Hin He1 He2). destruct (g a) eqn:Eg; [rewrite (Hgh a Eg); cbn; lia|].
+    destruct (h a); cbn; lia.
+Qed.
+
+Lemma insert_exc_in : forall tin e l x, In x (insert_exc tin e l) <-> x = e \/ In x l.
+Proof.
+  intros tin e. induction l as [|f l IH]; intros x; cbn [insert_exc].
+  - cbn. intuition.
+  - destruct (nth (fst e) tin 0 <? nth (fst f) tin 0); cbn [In]; [intuition|]. rewrite IH. intuition.
+Qed.
+
+Lemma sort_exc_in : forall tin l acc x,
+  In x (fold_left (fun a e => insert_exc tin e a) l acc) <-> In x l \/ In x acc.
+Proof.
+  intros tin. induction l as [|e l IHl]; intros acc x; cbn [fold_left].
+  - cbn. tauto.
+  - rewrite IHl, insert_exc_in. cbn. intuition.
+Qed.
+
+Section NearSubsumes.
+  Variables (p : poset) (rk : nat -> nat).
+  Hypothesis W : wf_poset p rk.
+  Let n := pn p.
+  Let R := reach (parents p).
+  Let Fr := reach (fpar p).
+  Let arrs := nested_arrays n (fch p) (roots p).
+  Let tin := fst (fst arrs).
+  Let tout := snd (fst arrs).
+  Let exc := fold_left (fun a e => insert_exc tin e a) (raw_exceptions p) [].
+
+  Lemma near_enc : build_near p = ENear tin tout (snd arrs) exc.
+  Proof.
+    unfold build_near. change (nested_arrays (pn p) (fun v => nth v (forest_children p) []) (roots p)) with arrs.
+    unfold exc, tin, tout. destruct arrs as [[a b] c]. reflexivity.
+  Qed.
+
+  Lemma exc_spec : forall c q, In (c, q) exc <-> exists f r, parents p c = f :: r /\ In q r.
+  Proof.
+    intros c q. unfold exc. rewrite sort_exc_in. unfold raw_exceptions. rewrite in_flat_map. split.
+    - intros [[c0 [Hc0 H]]|[]]. destruct (parents p c0) as [|f r] eqn:E; [destruct H|].
+      apply in_map_iff in H as [q0 [E0 Hq0]]. inversion E0; subst. exists f, r. auto.
+    - intros [f [r [E Hq]]]. left. exists c. split.
+      + unfold nodes. apply in_seq. assert (In f (parents p c)) by (rewrite E; cbn; auto).
+        apply (wf_lt p rk W) in H. fold n. lia.
+      + rewrite E. apply in_map_iff. exists q. auto.
+  Qed.
+
+  Lemma edge_split : forall c q, In q (parents p c) <-> In q (fpar p c) \/ In (c, q) exc.
+  Proof.
+    intros c q. rewrite exc_spec. unfold fpar. destruct (parents p c) as [|f r]; cbn.
+    - split; [intros []|intros [[]|[f' [r' [E _]]]]; discriminate].
+    - split.
+      + intros [<-|H]; auto. right. exists f, r. auto.
+      + intros [[<-|[]]|[f' [r' [E H]]]]; auto. inversion E; subst. auto.
+  Qed.
+
+  Lemma exc_edge : forall c q, In (c, q) exc -> In q (parents p c) /\ c < n /\ q < n /\ rk c < rk q.
+  Proof.
+    intros c q H. assert (Hq : In q (parents p c)) by (apply edge_split; auto).
+    destruct (wf_lt p rk W c q Hq). destruct (wf_rk p rk W c q Hq). auto.
+  Qed.
+
+  Lemma Fr_R : forall a b, Fr a b -> R a b.
+  Proof.
+    intros a b H. induction H as [|a q b Hin _ IH]; [constructor|].
+    eapply reach_step; eauto. apply fpar_sub; auto.
+  Qed.
+
+  Definition Ex (x y : nat) : Prop := exists c q, In (c, q) exc /\ Fr x c /\ R q y.
+
+  Lemma R_decomp : forall x y, R x y <-> Fr x y \/ Ex x y.
+  Proof.
+    intros x y. split.
+    - intros H. induction H as [x|x q0 y Hin Hr IH]; [left; constructor|].
+      apply edge_split in Hin as [Hf|He].
+      + destruct IH as [IH|[c [q [Hc [H1 H2]]]]].
+        * left. eapply reach_step; eauto.
+        * right. exists c, q. split; auto. split; auto. eapply reach_step; eauto.
+      + right. exists x, q0. split; auto. split; [constructor|auto].
+    - intros [H|[c [q [Hc [H1 H2]]]]]; [apply Fr_R; auto|].
+      eapply reach_trans; [apply Fr_R; eauto|]. eapply reach_step; [apply exc_edge; eauto|auto].
+  Qed.
+
+  Hypothesis Hins : forall a b, a < n -> b < n -> (inside tin tout a b = true <-> Fr a b).
+
+  Variable y : nat.
+  Hypothesis Hy : y < n.
+
+  Definition nu (x : nat) : nat := length (filter (fun e : nat * nat => rk x <? rk (snd e)) exc).
+  Definition sinv (seen : list nat) (x : nat) : Prop := forall s, In s seen -> ~ R s y \/ R s x.
+
+  Lemma via_spec : forall fuel x seen, x < n -> nu x < fuel -> sinv seen x ->
+    (fst (via_exception fuel tin tout exc x y seen) = true -> Ex x y) /\
+    (fst (via_exception fuel tin tout exc x y seen) = false ->
+       ~ Ex x y /\ forall s, In s (snd (via_exception fuel tin tout exc x y seen)) -> In s seen \/ ~ R s y).
+  Proof.
+    induction fuel as [|f IH]; intros x seen Hx Hnu Hinv; [lia|].
+    cbn [via_exception].
+    match goal with |- context [(fix loop (es : list (nat * nat)) (seen0 : list nat) {struct es} : bool * list nat := _) exc seen] =>
+      set (loop := (fix loop (es : list (nat * nat)) (seen0 : list nat) {struct es} : bool * list nat := _)) end.
+    assert (L : forall es seen0, incl es exc -> sinv seen0 x ->
+              (fst (loop es seen0) = true -> Ex x y) /\
+              (fst (loop es seen0) = false ->
+                 (forall c q, In (c, q) es -> Fr x c -> ~ R q y) /\
+                 forall s, In s (snd (loop es seen0)) -> In s seen0 \/ ~ R s y)).
+    { induction es as [|[c q] es IHes]; intros seen0 Hincl Hi0.
+      - cbn. split; [discriminate|]. intros _. split; [intros c q []|auto].
+      - assert (Hcq : In (c, q) exc) by (apply Hincl; cbn; auto).
+        destruct (exc_edge c q Hcq) as [Hpar [Hc [Hq Hrk]]].
+        assert (Hincl' : incl es exc) by (intros e He; apply Hincl; cbn; auto).
+        cbn [loop]. unfold loop at 1 2 3. fold loop.
+        destruct (inside tin tout x c) eqn:Exc; cbn [negb].
+        + apply Hins in Exc; auto.
+          assert (Hxq : R x q) by (eapply reach_trans; [apply Fr_R; eauto|]; eapply reach_step; [eauto|constructor]).
+          assert (Hrkx : rk x < rk q) by (pose proof (reach_rank (parents p) n rk (wf_rk p rk W) _ _ (Fr_R _ _ Exc)); lia).
+          destruct (inside tin tout q y) eqn:Eqy.
+          * apply Hins in Eqy; auto. cbn [fst]. split; [|discriminate]. intros _.
+            exists c, q. split; auto. split; auto. apply Fr_R; auto.
+          * assert (Hnf : ~ Fr q y) by (intros H; apply Hins in H; auto; congruence).
+            destruct (memn q seen0) eqn:Em.
+            -- apply memn_In in Em. assert (Hdead : ~ R q y).
+               { destruct (Hi0 q Em) as [H|H]; auto.
+                 pose proof (reach_rank (parents p) n rk (wf_rk p rk W) _ _ H). lia. }
+               destruct (IHes seen0 Hincl' Hi0) as [I1 I2]. split; auto.
+               intros Hf. destruct (I2 Hf) as [J1 J2]. split; auto.
+               intros c' q' [E|Hin] Hfr; [inversion E; subst; auto|eauto].
+            -- assert (Hnuq : nu q < f).
+               { assert (nu q < nu x); [|lia]. unfold nu.
+                 apply (filter_lt _ _ _ exc (c, q)); auto; cbn [snd].
+                 - intros e He. apply Nat.ltb_lt in He. apply Nat.ltb_lt. lia.
+                 - apply Nat.ltb_lt; auto.
+                 - apply Nat.ltb_ge. lia. }
+               assert (Hiq : sinv (q :: seen0) q).
+               { intros s [<-|Hs]; [right; constructor|]. destruct (Hi0 s Hs) as [H|H]; auto.
+                 right. eapply reach_trans; eauto. }
+               destruct (IH q (q :: seen0) Hq Hnuq Hiq) as [V1 V2].
+               destruct (via_exception f tin tout exc q y (q :: seen0)) as [b seen1] eqn:Ev. cbn [fst snd] in V1, V2.
+               destruct b.
+               ++ cbn [fst]. split; [|discriminate]. intros _. exists c, q. split; auto. split; auto.
+                  apply R_decomp. right. auto.
+               ++ destruct (V2 eq_refl) as [Hne Hs1].
+                  assert (Hdead : ~ R q y) by (intros H; apply R_decomp in H as [H|H]; auto).
+                  assert (Hi1 : sinv seen1 x).
+                  { intros s Hs. destruct (Hs1 s Hs) as [[<-|H]|H]; auto. }
+                  destruct (IHes seen1 Hincl' Hi1) as [I1 I2]. split; auto.
+                  intros Hf. destruct (I2 Hf) as [J1 J2]. split.
+                  ** intros c' q' [E|Hin] Hfr; [inversion E; subst; auto|eauto].
+                  ** intros s Hs. destruct (J2 s Hs) as [H|H]; auto.
+                     destruct (Hs1 s H) as [[<-|H']|H']; auto.
+        + assert (Hnx : ~ Fr x c) by (intros H; apply Hins in H; auto; congruence).
+          destruct (IHes seen0 Hincl' Hi0) as [I1 I2]. split; auto.
+          intros Hf. destruct (I2 Hf) as [J1 J2]. split; auto.
+          intros c' q' [E|Hin] Hfr; [inversion E; subst; contradiction|eauto]. }
+    destruct (L exc seen (incl_refl _) Hinv) as [L1 L2]. split; auto.
+    intros Hf. destruct (L2 Hf) as [J1 J2]. split; auto.
+    intros [c [q [Hc [H1 H2]]]]. apply (J1 c q Hc H1 H2).
+  Qed.
+End NearSubsumes.
+
+Lemma filter_length_le : forall A (g : A -> bool) l, length (filter g l) <= length l.
+Proof. induction l as [|a l IH]; cbn; auto. destruct (g a); cbn; lia. Qed.
+
+Section NearIndex.
+  Variables (p : poset) (rk : nat -> nat).
+  Hypothesis W : wf_poset p rk.
+  Let n := pn p.
+
+  Lemma near_inside : forall a b, a < n -> b < n ->
+    (inside (fst (fst (nested_arrays n (fch p) (roots p)))) (snd (fst (nested_arrays n (fch p) (roots p)))) a b = true
+     <-> reach (fpar p) a b).
+  Proof.
+    intros a b Ha Hb. unfold nested_arrays, inside. cbn [fst snd]. rewrite !nth_map_seq by auto.
+    apply (forest_inside n (fpar p) (fch p) (roots p) rk); auto.
+    - apply (f_ranked p rk W).
+    - intros c v. apply (fch_spec p rk W).
+    - apply f_one.
+    - apply (f_nd p rk W).
+    - apply roots_nodup.
+    - apply f_roots.
+    - apply (f_lt p rk W).
+  Qed.
+
+  Theorem near_subsumes : forall m r x y, x < n -> y < n ->
+    subsumes (mk_index p (build_near p) m r) x y = spec_subsumes p x y.
+  Proof.
+    intros m r x y Hx Hy. apply eq_true_iff_eq. rewrite (spec_subsumes_reach p rk W).
+    unfold subsumes, mk_index. cbn [ix_enc]. rewrite (near_enc p).
+    set (tin := fst (fst (nested_arrays (pn p) (fch p) (roots p)))).
+    set (tout := snd (fst (nested_arrays (pn p) (fch p) (roots p)))).
+    set (exc := fold_left (fun a e => insert_exc tin e a) (raw_exceptions p) []).
+    pose proof (R_decomp p rk W x y) as RD. fold tin in RD. fold exc in RD.
+    destruct (inside tin tout x y) eqn:Ei.
+    - split; auto. intros _. apply RD. left. apply (proj1 (near_inside x y Hx Hy)). exact Ei.
+    - assert (Hnf : ~ reach (fpar p) x y).
+      { intros H. pose proof (proj2 (near_inside x y Hx Hy) H) as H'. change (inside tin tout x y = true) in H'. congruence. }
+      destruct (via_spec p rk W near_inside y Hy (S (length exc)) x [] Hx) as [V1 V2].
+      + unfold nu. fold tin. fold exc. pose proof (filter_length_le _ (fun e : nat * nat => rk x <? rk (snd e)) exc). lia.
+      + intros s [].
+      + fold tin tout exc in V1, V2. split.
+        * intros Hv. apply RD. right. apply V1. exact Hv.
+        * intros HR. apply RD in HR as [HR|HR]; [contradiction|].
+          destruct (fst (via_exception (S (length exc)) tin tout exc x y [])) eqn:Ev; auto.
+          destruct (V2 eq_refl) as [Hne _]. contradiction.
+  Qed.
+End NearIndex.
